@@ -97,3 +97,34 @@ impl tower::Service<http::Request<TonicBody>> for FakeNode {
         })
     }
 }
+
+/// Variant whose handler is asynchronous (it may wait until the harness releases the answer) and
+/// sees the request headers (per-call metadata).
+pub type AsyncHandler =
+    dyn Fn(http::HeaderMap, String, Vec<u8>) -> Pin<Box<dyn Future<Output = Answer> + Send>> + Send + Sync;
+
+#[derive(Clone)]
+pub struct AsyncFakeNode {
+    pub handler: Arc<AsyncHandler>,
+}
+
+impl tower::Service<http::Request<TonicBody>> for AsyncFakeNode {
+    type Response = http::Response<FakeBody>;
+    type Error = FakeErr;
+    type Future = Pin<Box<dyn Future<Output = Result<Self::Response, FakeErr>> + Send>>;
+
+    fn poll_ready(&mut self, _cx: &mut Context<'_>) -> Poll<Result<(), FakeErr>> {
+        Poll::Ready(Ok(()))
+    }
+
+    fn call(&mut self, req: http::Request<TonicBody>) -> Self::Future {
+        let path = req.uri().path().to_string();
+        let headers = req.headers().clone();
+        let h = self.handler.clone();
+        Box::pin(async move {
+            let body = req.into_body().collect().await.map_err(|e| FakeErr(format!("body: {e}")))?.to_bytes();
+            let msg: Vec<u8> = if body.len() >= 5 { body[5..].to_vec() } else { vec![] };
+            respond(h(headers, path, msg).await)
+        })
+    }
+}
